@@ -1,0 +1,50 @@
+//go:build verif
+
+package main
+
+// Contracts for govc (see /verif/DESIGN.md). Compiled only with -tags verif.
+//
+// avail(r) is the ghost number of unread bytes the peer has actually sent on the
+// connection behind r; allocations of the parser must stay within
+// 64KiB + 64*avail(r) (the design's reading of "in proportion to the input").
+
+//@ func readLine
+//@   property C31
+//@   tag decoder
+//@   alloc ghost:avail(r)
+//@   requires r != nil
+//@   ensures [total] true
+//@   ensures [line-within-input] result1 == nil ==> uint64(len(result)) + 2 <= old(avail(r)) - avail(r) && 0 <= len(result)
+//@   ensures [consumes] avail(r) <= old(avail(r))
+//@   modifies avail(r)
+
+//@ func expectCRLF
+//@   property C31
+//@   tag decoder
+//@   alloc ghost:avail(r)
+//@   requires r != nil
+//@   ensures [total] true
+//@   ensures [consumes] avail(r) <= old(avail(r))
+//@   modifies avail(r)
+
+//@ func readBulk
+//@   property C31
+//@   tag decoder
+//@   alloc ghost:avail(r)
+//@   requires r != nil && 0 <= l
+//@   ensures [total] true
+//@   ensures [exact-length] result1 == nil ==> len(result) == l
+//@   ensures [consumes] avail(r) <= old(avail(r))
+//@   ensures [fresh-result] result1 == nil ==> fresh(result)
+//@   modifies avail(r)
+//@   loop 1 invariant [read-so-far] 0 <= len(buf) && len(buf) <= cap(buf) && avail(r) <= old(avail(r)) && uint64(len(buf)) <= old(avail(r)) - avail(r)
+//@   loop 1 invariant [params] r == r0 && l == l0 && len(buf) <= l && fresh(buf)
+
+//@ func parseRESP
+//@   property C31
+//@   tag decoder
+//@   alloc ghost:avail(r)
+//@   requires r != nil
+//@   ensures [total] true
+//@   loop 1 invariant [elements-backed-by-input] r == r0 && avail(r) <= old(avail(r)) && 0 <= len(out) && uint64(len(out)) <= old(avail(r)) - avail(r)
+//@   loop 2 invariant [fields-bounded] 0 <= len(line) && uint64(len(line)) <= old(avail(r)) && len(out) == len(fields) && (forall j int :: 0 <= j && j < len(fields) ==> 0 <= len(fields[j]) && len(fields[j]) <= len(line))
